@@ -255,3 +255,32 @@ fn kx_copy_from_slice() {
 unsafe fn unreachable_release_misc(ptr: *mut Shared) {
     assert!(false, "KIND_ARC arm reached from a freshly built handle");
 }
+
+// @ob props=C03,C01 tier=quick kind=Kbounded bound="owner buffer of 8 bytes" leak=1 fns=owned_to_mut,owned_to_vec,owned_drop_impl
+#[kani::proof]
+#[kani::unwind(10)]
+fn kx_owned_to_mut_keeps_owner_for_other_views() {
+    // converting ONE view into BytesMut / Vec<u8> while another view is alive copies and gives up
+    // one reference: the owner must stay alive until the last view goes
+    unsafe { AS_REF_CALLS = 0; OWNER_DROPS = 0; }
+    let o = any_owner();
+    let (lo, hi) = (o.lo, o.hi);
+    let data = o.buf;
+    let b = Bytes::from_owner(o);
+    let c = b.clone();
+    let i: usize = kani::any();
+    if kani::any() {
+        let m: BytesMut = b.into();
+        assert!(m.len() == hi - lo);
+        if i < hi - lo { assert!(m[i] == data[lo + i]); }
+        drop(m);
+    } else {
+        let v: Vec<u8> = b.into();
+        assert!(v.len() == hi - lo);
+        drop(v);
+    }
+    assert!(unsafe { OWNER_DROPS } == 0 && owned_cnt(&c) == 1);
+    if i < hi - lo { assert!(c[i] == data[lo + i]); }
+    drop(c);
+    assert!(unsafe { OWNER_DROPS } == 1);
+}
